@@ -39,7 +39,7 @@ Proof.
   rewrite (powmod_cong (4 * k + 3) a (k + 1)) by lia.
   transitivity (a ^ (2 * k + 1) * a); [|rewrite He; replace (1 * a) with a by ring; reflexivity].
   apply eq_subrelation; [typeclasses eauto|].
-  replace (2 * k + 1) with (k + k + 1) by ring. rewrite !Z.pow_add_r, !Z.pow_1_r by lia. ring.
+  replace (2 * k + 1) with (k + k + 1) by ring. rewrite !Z.pow_add_r, !Z.pow_1_r by (clear - Hk0; lia). ring.
 Qed.
 
 (* ---------------------------------------------------------------------------------------- Atkin, p = 5 mod 8 *)
@@ -66,12 +66,12 @@ Proof.
     rewrite (powmod_cong p a (k + 1)) by lia.
     transitivity (a ^ (2 * k + 1) * a); [|rewrite E; replace (1 * a) with a by ring; reflexivity].
     apply eq_subrelation; [typeclasses eauto|].
-    replace (2 * k + 1) with (k + k + 1) by ring. rewrite !Z.pow_add_r, !Z.pow_1_r by lia. ring.
+    replace (2 * k + 1) with (k + k + 1) by ring. rewrite !Z.pow_add_r, !Z.pow_1_r by (clear - Hk0; lia). ring.
   - (* t = a^((p-1)/4) squares to 1, is not 1, hence is -1 *)
     assert (Ht : cong p (a ^ (2 * k + 1)) (-1)).
     { assert (Hsq : cong p (a ^ (2 * k + 1) * a ^ (2 * k + 1)) 1).
       { transitivity (a ^ (4 * k + 2)); [|exact He]. apply eq_subrelation; [typeclasses eauto|].
-        replace (4 * k + 2) with (2 * k + 1 + (2 * k + 1)) by ring. rewrite !Z.pow_add_r by lia. ring. }
+        replace (4 * k + 2) with (2 * k + 1 + (2 * k + 1)) by ring. rewrite !Z.pow_add_r by (clear - Hk0; lia). ring. }
       destruct (cong_prime_sq_1 _ _ Hp Hsq) as [H1|H1]; [|exact H1].
       exfalso. apply E. apply (cong_eq_small p); [apply powmod_range; lia | lia |].
       rewrite (powmod_cong p a (2 * k + 1)) by lia. exact H1. }
@@ -80,7 +80,7 @@ Proof.
     { apply eq_subrelation; [typeclasses eauto|].
       replace (4 * k + 2) with (2 * (2 * k + 1)) by ring. rewrite (Z.pow_mul_r 2 2) by lia.
       change (2 ^ 2) with 4. replace (2 * k + 1) with (k + k + 1) by ring.
-      rewrite Z.pow_mul_l. rewrite !Z.pow_add_r, !Z.pow_1_r by lia. ring. }
+      rewrite Z.pow_mul_l. rewrite !Z.pow_add_r, !Z.pow_1_r by (clear - Hk0; lia). ring. }
     rewrite Ht, H2. replace (-1 * -1 * a) with a by ring. reflexivity.
 Qed.
 
@@ -128,7 +128,7 @@ Proof.
   assert (Hsq2a : cong p ((a * 2) ^ (4 * k + 2) * (a * 2) ^ (4 * k + 2)) 1).
   { transitivity (a ^ (8 * k + 4) * 2 ^ (8 * k + 4)); [|rewrite Ha, H2; reflexivity].
     apply eq_subrelation; [typeclasses eauto|].
-    replace (8 * k + 4) with (4 * k + 2 + (4 * k + 2)) by ring. rewrite Z.pow_mul_l, !Z.pow_add_r by lia. ring. }
+    replace (8 * k + 4) with (4 * k + 2 + (4 * k + 2)) by ring. rewrite Z.pow_mul_l, !Z.pow_add_r by (clear - Hk0; lia). ring. }
   assert (Hs : cong p ((a * 2) ^ (4 * k + 2)) s /\ (s = 1 \/ s = -1)).
   { subst s. destruct (Z.eqb_spec (powmod (a * 2) (4 * k + 2) p) 1) as [E|E].
     - split; [|left; reflexivity]. apply powmod_eq_1; [lia|lia|exact E].
@@ -148,7 +148,7 @@ Proof.
     - destruct Hs1 as [-> | ->]; [|contradiction Hok; reflexivity].
       assert (Hsq : cong p (d ^ (8 * k + 4) * d ^ (8 * k + 4)) 1).
       { transitivity (d ^ (16 * k + 8)); [|exact Hfermat]. apply eq_subrelation; [typeclasses eauto|].
-        replace (16 * k + 8) with (8 * k + 4 + (8 * k + 4)) by ring. rewrite !Z.pow_add_r by lia. ring. }
+        replace (16 * k + 8) with (8 * k + 4 + (8 * k + 4)) by ring. rewrite !Z.pow_add_r by (clear - Hk0; lia). ring. }
       destruct (cong_prime_sq_1 _ _ Hp Hsq) as [H1|H1]; [|exact H1].
       exfalso. apply E. apply (cong_eq_small p); [apply powmod_range; lia | lia |].
       rewrite (powmod_cong p d (8 * k + 4)) by lia. exact H1. }
@@ -163,10 +163,10 @@ Proof.
   - apply eq_subrelation; [typeclasses eauto|]. subst Iv i1. ring.
   - transitivity ((a * 2) ^ (4 * k + 2) * d ^ (8 * k + 4)).
     { apply eq_subrelation; [typeclasses eauto|]. subst Iv z i1.
-      replace (8 * k + 4) with (2 * (4 * k + 2)) by ring. rewrite (Z.pow_mul_r d 2) by lia.
+      replace (8 * k + 4) with (2 * (4 * k + 2)) by ring. rewrite (Z.pow_mul_r d 2) by (clear - Hk0; lia).
       rewrite Z.pow_2_r. replace (4 * k + 2) with (k + k + 1 + (k + k + 1)) by ring.
       rewrite <- Z.pow_mul_l. replace (a * 2 * (d * d)) with (a * 2 * d * d) by ring.
-      rewrite !Z.pow_add_r, !Z.pow_1_r by lia. ring. }
+      rewrite !Z.pow_add_r, !Z.pow_1_r by (clear - Hk0; lia). ring. }
     rewrite Hs, Hd. apply eq_subrelation; [typeclasses eauto|]. destruct Hs1 as [-> | ->]; reflexivity.
 Qed.
 
